@@ -211,6 +211,7 @@ def keyProveRespond (S : State) (r c : Int) : Option Int :=
 
 /-- verifier's final check `m_1 = g^{m_2} · key^{-c}` -/
 def keyVerifyFinal (kind : Kind) (S : State) (key m1 c m2 : Int) : Except Err Bool := do
+  if !checkElement kind S.G key then return false
   if !checkElement kind S.G m1 then return false
   if m2.natAbs ≥ S.G.q.natAbs then return false
   let gm ← fpowm S.tabG S.G.g m2 S.G.p
